@@ -870,10 +870,9 @@ pub fn main(prop: &'static str, rule: &str, assumptions: &[&str], subs: &[Sub], 
         }
         ctx.extra("regressions_replayed", json!(n));
     }
+    // run functions filter by name themselves (run_prop / run_enum consult `--only`)
     for s in subs {
-        if ctx.wants(s.name) {
-            (s.run)(&ctx);
-        }
+        (s.run)(&ctx);
     }
     post(&ctx);
     ctx.finish()
